@@ -223,6 +223,35 @@ theorem dieSplit_refines (fuel : Nat) (d d' : DieSt α) (ratio : α) (n : Nat)
   obtain ⟨a, b, c⟩ := splitRectangles_sound fuel _ ratio n outs hpos hs
   exact ⟨refines_perm _ _ _ hperm.symm a, by rw [hperm.length_eq]; exact c, fun o ho => b o (hperm.subset ho)⟩
 
+/-- **die refinement terminates and returns**: for every die with at least one (proper) refinable region, `n ≥ 1`
+    and `ratio > 1.415`, `split_refinable_regions` returns a die (explicit fuel), given the bound `ratio * 2^K` on the
+    aspect ratios of the refinable regions (automatic in Archimedean fields, `exists_aspect_bound`). -/
+theorem dieSplit_terminates (d : DieSt α) (ratio : α) (n K : Nat) (hne : (floorplanningRectangles d).1 ≠ [])
+    (hn : 1 ≤ n) (hratio : ratioMin < ratio) (hpos : Proper (floorplanningRectangles d).1)
+    (hK : ∀ r ∈ (floorplanningRectangles d).1, r.aspectRatio ≤ ratio * 2 ^ K) :
+    ∃ d', splitRefinableRegions ((floorplanningRectangles d).1.length * (2 ^ (K + 1) - 1) + n + 8) d ratio n = .ok d' := by
+  obtain ⟨outs, h⟩ := split_terminates _ ratio n K hne hn hratio hpos hK
+  unfold splitRefinableRegions
+  rw [if_neg (by omega), if_neg (by simp [hratio])]
+  have e : d.specialized ++ d.ground = (floorplanningRectangles d).1 := rfl
+  rw [e, h]
+  exact ⟨_, rfl⟩
+
+/-- die-level total correctness over Archimedean fields: a die comes back, and it satisfies the property. -/
+theorem dieSplit_total_archimedean [Archimedean α] (d : DieSt α) (ratio : α) (n : Nat)
+    (hne : (floorplanningRectangles d).1 ≠ []) (hn : 1 ≤ n) (hratio : ratioMin < ratio)
+    (hpos : Proper (floorplanningRectangles d).1) :
+    ∃ fuel d', splitRefinableRegions fuel d ratio n = .ok d' ∧
+      Refines (floorplanningRectangles d).1 (floorplanningRectangles d').1 ∧
+      n ≤ (floorplanningRectangles d').1.length ∧ (∀ o ∈ (floorplanningRectangles d').1, o.aspectRatio ≤ ratio) ∧
+      d'.blockages = d.blockages ∧ d'.fixed = d.fixed ∧ d'.die = d.die := by
+  obtain ⟨_, hr1⟩ := ratio_facts ratio hratio
+  obtain ⟨K, hK⟩ := exists_aspect_bound (floorplanningRectangles d).1 ratio (by linarith)
+  obtain ⟨d', h⟩ := dieSplit_terminates d ratio n K hne hn hratio hpos hK
+  obtain ⟨a, b, c⟩ := dieSplit_refines _ d d' ratio n hpos h
+  obtain ⟨e1, e2, e3, _⟩ := dieSplit_spec _ d d' ratio n h
+  exact ⟨_, d', h, a, b, c, e1, e2, e3⟩
+
 /-- `initial_grid` succeeds exactly on a clean die with a sensible grid shape. -/
 theorem initialGrid_ok_iff (d : DieSt α) (nr nc : Nat) :
     (∃ d', initialGrid d nr nc = .ok d') ↔
@@ -279,6 +308,41 @@ example : Proper [(⟨2, 2, 4, 4, "_", false, false, .nopoly⟩ : Rect ℚ)] := 
 example : (ratioMin : ℚ) < 3 / 2 := by norm_num [ratioMin]
 example : (⟨2, 2, 4, 4, "_", false, false, .nopoly⟩ : Rect ℚ).aspectRatio ≤ (3 / 2) * 2 ^ 0 := by
   norm_num [aspectRatio]
+/-- a die 8×4 with a tagged region, a ground region, a blockage and a fixed region (the auditor's witness). -/
+def dieEx : DieSt ℚ :=
+  ⟨⟨4, 2, 8, 4, "_", false, false, .nopoly⟩,
+   [⟨7, 2, 2, 4, "dsp", false, false, .nopoly⟩],
+   [⟨5/2, 2, 5, 4, "_", false, false, .nopoly⟩],
+   [⟨11/2, 1, 1, 2, "#", false, false, .nopoly⟩],
+   [⟨11/2, 3, 1, 2, "_", true, false, .nopoly⟩]⟩
+
+def isOkB {ε β : Type} : Except ε β → Bool | .ok _ => true | .error _ => false
+
+example : Proper (floorplanningRectangles dieEx).1 := by
+  intro r hr; simp [floorplanningRectangles, dieEx] at hr; rcases hr with rfl | rfl <;> norm_num
+
+/-- `dieSplit_refines` / `dieSplit_spec` applied: aspect limit 142/100, at least 7 regions. -/
+example : ∃ d', splitRefinableRegions 200 dieEx (142/100) 7 = .ok d' ∧
+    Refines (floorplanningRectangles dieEx).1 (floorplanningRectangles d').1 ∧
+    7 ≤ (floorplanningRectangles d').1.length ∧ d'.blockages = dieEx.blockages ∧ d'.fixed = dieEx.fixed := by
+  have hk : isOkB (splitRefinableRegions 200 dieEx (142/100) 7) = true := by decide +kernel
+  cases h : splitRefinableRegions 200 dieEx (142/100) 7 with
+  | error e => rw [h] at hk; simp [isOkB] at hk
+  | ok d' =>
+    have hp : Proper (floorplanningRectangles dieEx).1 := by
+      intro r hr; simp [floorplanningRectangles, dieEx] at hr; rcases hr with rfl | rfl <;> norm_num
+    obtain ⟨a, b, _⟩ := dieSplit_refines 200 dieEx d' _ 7 hp h
+    obtain ⟨e1, e2, _⟩ := dieSplit_spec 200 dieEx d' _ 7 h
+    exact ⟨d', rfl, a, b, e1, e2⟩
+
+/-- `dieSplit_total_archimedean` applied to the same die (ℚ is Archimedean). -/
+example : ∃ fuel d', splitRefinableRegions fuel dieEx (142/100) 7 = .ok d' ∧ 7 ≤ (floorplanningRectangles d').1.length := by
+  have hp : Proper (floorplanningRectangles dieEx).1 := by
+    intro r hr; simp [floorplanningRectangles, dieEx] at hr; rcases hr with rfl | rfl <;> norm_num
+  obtain ⟨f, d', h, _, c, _⟩ := dieSplit_total_archimedean dieEx (142/100) 7
+    (by simp [floorplanningRectangles, dieEx]) (by norm_num) (by norm_num [ratioMin]) hp
+  exact ⟨f, d', h, c⟩
+
 example : (match initialGrid (⟨⟨2, 1, 4, 2, "_", false, false, .nopoly⟩, [], [⟨2, 1, 4, 2, "_", false, false, .nopoly⟩], [], []⟩ : DieSt ℚ) 2 3 with
     | .ok d => d.ground.length == 6
     | .error _ => false) = true := by decide +kernel
